@@ -174,6 +174,16 @@ claim('C20',
       '(rotoreflections in VectorBasis: pure S4 site symmetry).',
       'DESIGN.md 3/C20')
 
+claim('C18',
+      'Bounded symbolic verification: for every crystal of the library and EVERY reported operation, with symbolic lattice translation R '
+      'and symbolic points: image of every atom == Cartesian image (same species, spin), recorded permutation == geometry, isometry (by '
+      'polarisation), integer rotation with integer inverse, Cartesian action == lattice-coordinate action (QF_LIRA); closure/identity/'
+      'inverse modulo lattice translations by looking up every product; GroupOp.__mul__ on fully symbolic operations associative and '
+      'acting as composition.',
+      'Soundness only (completeness of the symmetry search is not part of the property). Crystals enumerated (incl. scalar/vector spins, '
+      'hexagonal magnets, NOSYM); |R_k|<=1000; equalities to 1e-8 with the exact rationals of the library floats.',
+      'DESIGN.md 3/C18')
+
 na('C01', 'exact oracle is an infinite-state pair Markov chain reached through Brillouin-zone quadrature, LAPACK and hyp1f1/expi; '
           'agreement only to integration accuracy: no algebraic statement a solver can decide (DESIGN 5)')
 na('C06', 'identities hold only for the true lattice Green function of the omega0 network (numerical k-space integration); '
